@@ -1,10 +1,13 @@
 package props
 
 import (
+	"hash/fnv"
 	"net/http"
 	"net/http/httptest"
 	"net/url"
+	"sort"
 	"strings"
+	"sync"
 
 	"github.com/go-openapi/runtime/middleware/denco"
 
@@ -31,45 +34,158 @@ func init() {
 		{"L", proto.L([]string{",/:a", "/:b"}), proto.B("/2")},
 		{"L", proto.L([]string{",/:a", "/:b"}), proto.B(",/1")},
 		{"L", proto.L([]string{"\x02-/:a", "\x02/:b"}), proto.B("\x02/7")},
+		// widening: the empty table, the empty key, a key given twice (the later record counts), a
+		// placeholder as the very first byte of a key, a path that is a proper prefix of a key
+		{"L", proto.L(nil), proto.B("/a")},
+		{"L", proto.L([]string{"", "/:a"}), proto.B("")},
+		{"L", proto.L([]string{"/:a", "/s", "/:a", "/s"}), proto.B("/s")},
+		{"L", proto.L([]string{"/:a", "/s", "/:a", "/s"}), proto.B("/t")},
+		{"L", proto.L([]string{":x/:y", "*w/:z"}), proto.B("q/r")},
+		{"L", proto.L([]string{"/a/:x/b", "/a/:x"}), proto.B("/a/1/")},
+		{"M", proto.L(nil), proto.L(nil), proto.B("GET"), proto.B("/")},
+		{"M", proto.L([]string{"HEAD", "PUT", "POST", "GET", ""}), proto.L([]string{"/:a", "/:b", "/:c", "/:d", "/:e"}), proto.B("HEAD"), proto.B("/x")},
+		{"M", proto.L([]string{"HEAD", "PUT", "POST", "GET", ""}), proto.L([]string{"/:a", "/:b", "/:c", "/:d", "/:e"}), proto.B(""), proto.B("/x")},
 	}})
 }
 
-// c05Mux runs denco.Mux: handlers (method, path) in the given order, one request.
+// c05Mix is a checksum of a whole input line (FNV-1a): the executor takes every choice the line
+// protocol does not carry (entry point, warm-up calls, preset options) from it, so that a case
+// replays identically and shrinking keeps a failing choice only if the smaller input reproduces it.
+func c05Mix(in []string) uint32 {
+	h := fnv.New32a()
+	for _, f := range in {
+		h.Write([]byte(f))
+		h.Write([]byte{' '})
+	}
+	return h.Sum32()
+}
+
+// c05Warm gives other paths for the same table: every key (at most four) with its placeholders
+// filled in by fixed texts, the observed path itself and the observed path with a further segment.
+// They are looked up before and after the observed lookup; their answers are thrown away. A
+// Router is immutable after Build, so none of this may change the observed answer.
+func c05Warm(keys []string, path string) []string {
+	out := []string{path, path + "/w"}
+	for k, key := range keys {
+		if k == 4 {
+			break
+		}
+		var sb strings.Builder
+		for i := 0; i < len(key); i++ {
+			switch c := key[i]; c {
+			case ':':
+				for i+1 < len(key) && key[i+1] != '/' {
+					i++
+				}
+				sb.WriteString([]string{"w1", "warm", "0"}[k%3])
+			case '*':
+				i = len(key)
+				sb.WriteString("w/w2")
+			default:
+				sb.WriteByte(c)
+			}
+		}
+		out = append(out, sb.String())
+	}
+	return out
+}
+
+// c05Scribble overwrites what a lookup handed out (the caller owns it).
+func c05Scribble(ps denco.Params) {
+	for i := range ps {
+		ps[i] = denco.Param{Name: "!", Value: "!!"}
+	}
+}
+
+// c05Mux runs denco.Mux: handlers (method, path) in the given order, one observed request.
 func c05Mux(in []string) []string {
 	methods, paths := proto.UnL(in[1]), proto.UnL(in[2])
 	method, path := proto.UnB(in[3]), proto.UnB(in[4])
 	if len(methods) != len(paths) {
 		return []string{"INVALID"}
 	}
+	mix := c05Mix(in)
 	mux := denco.NewMux()
-	hit := ""
+	// what the handler that ran was given; rendered only after every request of the case is over
+	type call struct {
+		i  int
+		ps denco.Params
+	}
+	var last *call
 	hs := make([]denco.Handler, len(methods))
 	for i := range methods {
 		i := i
-		hs[i] = mux.Handler(methods[i], paths[i], func(w http.ResponseWriter, r *http.Request, ps denco.Params) {
-			names := make([]string, len(ps))
-			vals := make([]string, len(ps))
-			seen := map[string]int{}
-			for _, p := range ps {
-				seen[p.Name]++
-			}
-			for j, p := range ps {
-				names[j], vals[j] = p.Name, p.Value
-				if seen[p.Name] == 1 {
-					vals[j] = ps.Get(p.Name) // asked by name, as handlers do
-				}
-			}
-			hit = "H " + proto.N(i) + " " + proto.L(names) + " " + proto.L(vals)
-		})
+		fn := func(w http.ResponseWriter, r *http.Request, ps denco.Params) { last = &call{i, ps} }
+		// the shorthands GET/POST/PUT/HEAD are documented as Handler(<that method>, ...): use them
+		// for every other handler registered under exactly such a method
+		switch m := methods[i]; {
+		case (int(mix)+i)%2 == 0 && m == "GET":
+			hs[i] = mux.GET(paths[i], fn)
+		case (int(mix)+i)%2 == 0 && m == "POST":
+			hs[i] = mux.POST(paths[i], fn)
+		case (int(mix)+i)%2 == 0 && m == "PUT":
+			hs[i] = mux.PUT(paths[i], fn)
+		case (int(mix)+i)%2 == 0 && m == "HEAD":
+			hs[i] = mux.HEAD(paths[i], fn)
+		default:
+			hs[i] = mux.Handler(m, paths[i], fn)
+		}
 	}
 	h, err := mux.Build(hs)
 	if err != nil {
 		return []string{"E"}
 	}
-	rec := httptest.NewRecorder()
-	h.ServeHTTP(rec, &http.Request{Method: method, URL: &url.URL{Path: path}})
-	if hit != "" {
-		return strings.Fields(hit)
+	serve := func(method, path string) *httptest.ResponseRecorder {
+		rec := httptest.NewRecorder()
+		h.ServeHTTP(rec, &http.Request{Method: method, URL: &url.URL{Path: path}})
+		return rec
+	}
+	// the built handler serves many requests: other requests (every registered method in turn, the
+	// table's own paths) before and after the observed one, for three quarters of the cases
+	others := func() {
+		warm := c05Warm(paths, path) // starts with the observed path itself
+		for k := -1; k < len(warm); k++ {
+			m, p := method, path // first the observed request itself, then other (method, path) pairs
+			if k >= 0 {
+				p = warm[k]
+				if len(methods) > 0 {
+					m = methods[k%len(methods)]
+				}
+			}
+			last = nil
+			serve(m, p)
+			if last != nil {
+				c05Scribble(last.ps)
+			}
+		}
+	}
+	if mix>>8&1 == 1 {
+		others()
+	}
+	last = nil
+	rec := serve(method, path)
+	obs := last
+	if mix>>9&1 == 1 {
+		others()
+	}
+	if obs != nil {
+		ps := obs.ps
+		names := make([]string, len(ps))
+		vals := make([]string, len(ps))
+		seen := map[string]int{}
+		absent := "~"
+		for _, p := range ps {
+			seen[p.Name]++
+			absent += p.Name
+		}
+		for j, p := range ps {
+			names[j], vals[j] = p.Name, p.Value
+			if seen[p.Name] == 1 {
+				// asked by name, as handlers do; a name no parameter has gives ""
+				vals[j] = ps.Get(absent) + ps.Get(p.Name)
+			}
+		}
+		return []string{"H", proto.N(obs.i), proto.L(names), proto.L(vals)}
 	}
 	if rec.Code == http.StatusNotFound {
 		return []string{"N"}
@@ -83,9 +199,15 @@ func c05Exec(in []string) []string {
 	}
 	keys := proto.UnL(in[1])
 	path := proto.UnB(in[2])
+	mix := c05Mix(in)
 	recs := make([]denco.Record, len(keys))
 	for i, k := range keys {
-		recs[i] = denco.NewRecord(k, i)
+		// a Record is a plain struct: written out as often as made by NewRecord
+		if mix&1 == 1 {
+			recs[i] = denco.Record{Key: k, Value: i}
+		} else {
+			recs[i] = denco.NewRecord(k, i)
+		}
 	}
 	rt := denco.New()
 	// SizeHint is a documented knob (capacity of the parameter slice only): preset it for three
@@ -98,6 +220,13 @@ func c05Exec(in []string) []string {
 	}
 	if h := sum % 4; h > 0 {
 		rt.SizeHint = []int{0, 0, 1, 3}[h]
+		// ... one preset in four takes another value: exactly two, or far more than any key has
+		switch mix >> 1 & 7 {
+		case 0:
+			rt.SizeHint = 2
+		case 1:
+			rt.SizeHint = 100
+		}
 	}
 	if err := rt.Build(recs); err != nil {
 		switch {
@@ -108,21 +237,63 @@ func c05Exec(in []string) []string {
 		}
 		return []string{"E", proto.B(err.Error())}
 	}
+	// One Router answers many lookups, also at the same time. Other lookups on the same Router
+	// (c05Warm) run before the observed one (their answers overwritten by the caller, who owns
+	// them), after it (while the observed answer is still held and read only afterwards), and for
+	// one case in eight concurrently with it.
+	warm := c05Warm(keys, path)
+	others := func() {
+		for _, p := range warm {
+			_, ps, _ := rt.Lookup(p)
+			c05Scribble(ps)
+		}
+	}
+	if mix>>8&1 == 1 {
+		others()
+	}
+	var wg sync.WaitGroup
+	var crashed sync.Map // a panic of a concurrent lookup is the case's panic
+	if mix>>10&7 == 0 {
+		for g := 0; g < 2; g++ {
+			wg.Add(1)
+			go func() {
+				defer wg.Done()
+				defer func() {
+					if r := recover(); r != nil {
+						crashed.Store(0, r)
+					}
+				}()
+				for k := 0; k < 4; k++ {
+					others()
+				}
+			}()
+		}
+	}
 	data, params, found := rt.Lookup(path)
+	wg.Wait()
+	if r, ok := crashed.Load(0); ok {
+		panic(r)
+	}
+	if mix>>9&1 == 1 {
+		others()
+	}
 	if !found {
 		return []string{"N"}
 	}
 	names := make([]string, len(params))
 	vals := make([]string, len(params))
 	seen := map[string]int{}
+	absent := "~"
 	for _, p := range params {
 		seen[p.Name]++
+		absent += p.Name
 	}
 	for i, p := range params {
 		names[i] = p.Name
 		vals[i] = p.Value
 		if seen[p.Name] == 1 && i%2 == 1 {
-			vals[i] = params.Get(p.Name) // asked by name
+			// asked by name; a name no parameter has gives ""
+			vals[i] = params.Get(absent) + params.Get(p.Name)
 		}
 	}
 	return []string{"F", proto.N(data.(int)), proto.L(names), proto.L(vals)}
@@ -178,6 +349,13 @@ func c05Key(r *proto.Rng, weird bool) string {
 			} else {
 				sb.WriteString(r.Pick(c05Lits...))
 			}
+		case 7:
+			if r.Chance(1, 8) {
+				// a long literal: what follows it sits beyond position 255 of the path
+				sb.WriteString(strings.Repeat(r.Pick("l", "lo", "ab"), 130+r.Intn(8)))
+			} else {
+				sb.WriteString(r.Pick(c05Lits...))
+			}
 		default:
 			sb.WriteString(r.Pick(c05Lits...))
 		}
@@ -219,9 +397,19 @@ func c05Inst(r *proto.Rng, key string) string {
 				j++
 			}
 			i = j - 1
+			if r.Chance(1, 30) {
+				// a long text (later placeholders start beyond position 255), bytes above 0x7f that
+				// are no UTF-8, the bytes next to the reserved ones
+				sb.WriteString(r.Pick(strings.Repeat("v", 260), strings.Repeat("xy", 140), "\xff", "\x80\xfe", "\x01", ";", "9", "\"", "$", "+", ")", " ", "a b", "a?b"))
+				break
+			}
 			sb.WriteString(r.Pick("1", "ab", "a", "", "a#b", ":", "*", "#", "a:b", "é", "x.y", "%2F", "a=b"))
 		case '*':
 			i = len(key)
+			if r.Chance(1, 30) {
+				sb.WriteString(r.Pick(strings.Repeat("t/", 150), "\xff/\x80", "//", "t//u", "/t", "t/", "*", "a#"))
+				break
+			}
 			sb.WriteString(r.Pick("t", "t/u", "", "a/b/c", "#", ":x", "/"))
 		default:
 			sb.WriteByte(c)
@@ -240,6 +428,15 @@ func c05Gen(r *proto.Rng, n int, tier string, emit func(in ...string)) {
 		if r.Chance(1, 3) {
 			nk = 1 + r.Intn(3)
 		}
+		if tier != "thorough" && r.Chance(1, 400) {
+			// "up to thousands of records": now and then a table of some hundred keys
+			nk = 100 + r.Intn(200)
+		} else if tier == "thorough" && r.Chance(1, 1500) {
+			nk = 300 + r.Intn(1500) // the model's insertion sort makes these cost ~50 ms each
+		}
+		if r.Chance(1, 300) {
+			nk = 0 // Build of no records at all
+		}
 		keys := make([]string, 0, nk)
 		weird := r.Chance(1, 12)
 		for len(keys) < nk {
@@ -257,24 +454,53 @@ func c05Gen(r *proto.Rng, n int, tier string, emit func(in ...string)) {
 			if r.Chance(1, 10) {
 				// keys need not start with '/': other first bytes place the root's children elsewhere
 				k = r.Pick(",", "\x02", "a", "-", "\x01", "!", "~") + k
+			} else if r.Chance(1, 40) {
+				// ... nor need the first byte be a literal: a placeholder may open the key (with a
+				// name no other placeholder of this generator has), and a key may be empty or "/"
+				k = r.Pick(":h", "*h", ":", "=:h", "a=:h", "\xff", "\x80:") + k
+				if r.Chance(1, 4) {
+					k = r.Pick("", "/", "//", ":h", "*h", "=:h")
+				}
+			}
+			if r.Chance(1, 25) && len(keys) > 0 {
+				// the same key again, under another value (the later record counts)
+				k = keys[r.Intn(len(keys))]
 			}
 			keys = append(keys, k)
 		}
+		if r.Chance(1, 20) {
+			// insertion orders a random draw hardly gives: ascending, descending
+			sort.Strings(keys)
+			if r.Chance(1, 2) {
+				for a, b := 0, len(keys)-1; a < b; a, b = a+1, b-1 {
+					keys[a], keys[b] = keys[b], keys[a]
+				}
+			}
+		}
 		lk := proto.L(keys)
-		if r.Chance(1, 8) {
+		anyKey := func() string {
+			if len(keys) == 0 {
+				return r.Pick("/a", "", "/")
+			}
+			return keys[r.Intn(len(keys))]
+		}
+		if r.Chance(1, 8) && len(keys) < 100 {
 			// the same table behind denco.Mux, with a method per key
 			ms := make([]string, len(keys))
 			for k := range ms {
-				ms[k] = r.Pick("GET", "GET", "POST", "PUT", "get")
+				ms[k] = r.Pick("GET", "GET", "POST", "PUT", "get", "HEAD", "HEAD", "POST", "PUT", "DELETE", "", "Get")
 			}
 			for j := 0; j < 3 && i < n; j++ {
-				p := c05Inst(r, keys[r.Intn(len(keys))])
+				p := c05Inst(r, anyKey())
 				if r.Chance(1, 4) {
 					p = "/" + r.Bytes("ab/:", r.Intn(6))
 				}
-				rm := ms[r.Intn(len(ms))]
+				rm := r.Pick("GET", "POST")
+				if len(ms) > 0 {
+					rm = ms[r.Intn(len(ms))]
+				}
 				if r.Chance(1, 4) {
-					rm = r.Pick("GET", "POST", "PUT", "get", "HEAD")
+					rm = r.Pick("GET", "POST", "PUT", "get", "HEAD", "DELETE", "", "head", "PATCH")
 				}
 				emit("M", proto.L(ms), lk, proto.B(rm), proto.B(p))
 				i++
@@ -283,21 +509,25 @@ func c05Gen(r *proto.Rng, n int, tier string, emit func(in ...string)) {
 		}
 		for j := 0; j < 6 && i < n; j++ {
 			var p string
-			switch r.Intn(8) {
+			switch r.Intn(9) {
 			case 0, 1, 2, 3:
-				p = c05Inst(r, keys[r.Intn(len(keys))])
+				p = c05Inst(r, anyKey())
 			case 4:
-				p = c05Inst(r, keys[r.Intn(len(keys))])
+				p = c05Inst(r, anyKey())
 				if len(p) > 0 && r.Chance(1, 2) {
 					k := r.Intn(len(p))
-					p = p[:k] + r.Pick("/", "a", ":", "#", "*", "", "\x00") + p[k+1:]
+					p = p[:k] + r.Pick("/", "a", ":", "#", "*", "", "\x00", "\xff", "\x80") + p[k+1:]
 				} else {
 					p += r.Pick("/", "a", "#", "/a")
 				}
 			case 5:
-				p = keys[r.Intn(len(keys))]
+				p = anyKey()
 			case 6:
 				p = r.Bytes("ab/:*#=-\x00", r.Intn(8))
+			case 7:
+				// a path that stops short: a proper prefix of an instantiation
+				p = c05Inst(r, anyKey())
+				p = p[:r.Intn(len(p)+1)]
 			default:
 				p = "/" + r.Bytes("ab/", r.Intn(6))
 			}
